@@ -817,6 +817,7 @@ pub fn do_cli(sh: &Arc<Shared>, _local: &mut TaskLocal, op: &Op) -> OpResult {
             judge_parse(&line, None)
         }
         Op::FileKinds { kind } => file_kinds(sh, *kind),
+        Op::SysFault { target, data, syscall, errno, when } => sys_fault(sh, *target, *data, *syscall, *errno, *when),
         _ => Err(OpErr::Skip),
     }
 }
@@ -884,4 +885,112 @@ fn file_kinds(sh: &Arc<Shared>, kind: u8) -> OpResult {
         }
     }
     Ok(oks.first().map_or(0xE77, |o| Fnv::of(&o.0)))
+}
+
+
+pub fn strace_available() -> bool {
+    use std::sync::OnceLock;
+    static OK: OnceLock<bool> = OnceLock::new();
+    *OK.get_or_init(|| {
+        // ptrace may be forbidden in a sandbox: probe once with a trivial injection
+        std::process::Command::new("strace")
+            .args(["-f", "-o", "/dev/null", "-e", "trace=getpid", "-e", "inject=getpid:retval=7:when=1", "true"])
+            .stdout(std::process::Stdio::null())
+            .stderr(std::process::Stdio::null())
+            .status()
+            .map_or(false, |s| s.success())
+    })
+}
+
+/// child side: `b3sim child hash-file <how> <path>` prints "<hex> <count>" or "ERR <kind>"
+pub fn child_hash_file(how: &str, path: &str) -> i32 {
+    let mut h = blake3::Hasher::new();
+    let r: std::io::Result<()> = match how {
+        "mmap" => h.update_mmap(path).map(|_| ()),
+        "mmap_rayon" => h.update_mmap_rayon(path).map(|_| ()),
+        _ => std::fs::File::open(path).and_then(|f| h.update_reader(f).map(|_| ())),
+    };
+    match r {
+        Ok(()) => {
+            println!("{} {}", h.finalize().to_hex(), h.count());
+            0
+        }
+        Err(e) => {
+            println!("ERR {:?}", e.kind());
+            1
+        }
+    }
+}
+
+fn sys_fault(sh: &Arc<Shared>, target: u8, data: usize, syscall: u8, errno: u8, when: u32) -> OpResult {
+    if !strace_available() {
+        sh.probe("syscall_faults_skipped_no_ptrace");
+        return Err(OpErr::Skip);
+    }
+    let content = sh.data.get(data).ok_or(OpErr::Skip)?.clone();
+    let dir = sh.scratch_dir()?;
+    let path = dir.join("sysfault.bin");
+    std::fs::write(&path, &content).map_err(|e| OpErr::Harness(e.to_string()))?;
+    let (sc, errs): (&str, &[&str]) = match syscall % 3 {
+        0 => ("mmap", &["ENOMEM", "ENODEV", "EACCES", "EINVAL", "EAGAIN"]),
+        1 => ("lseek", &["ESPIPE", "EINVAL", "EOVERFLOW"]),
+        _ => ("read", &["EINTR", "EIO", "EAGAIN", "EBADF"]),
+    };
+    let en = errs[errno as usize % errs.len()];
+    let when = when.max(1);
+    let log = dir.join("strace.log");
+    let mut cmd = std::process::Command::new("strace");
+    cmd.arg("-f").arg("-o").arg(&log).arg("-P").arg(&path).arg("-e").arg("trace=read,mmap,lseek,pread64").arg("-e").arg(format!("inject={sc}:error={en}:when={when}"));
+    let is_b3sum = target % 5 >= 3;
+    if is_b3sum {
+        let Some(bin) = b3sum_bin() else { return Err(OpErr::Harness("B3SUM_BIN not set".into())) };
+        cmd.arg(bin);
+        if target % 5 == 4 {
+            cmd.arg("--no-mmap");
+        }
+        cmd.arg("sysfault.bin");
+    } else {
+        cmd.arg(std::env::current_exe().unwrap()).arg("child").arg("hash-file").arg(["mmap", "mmap_rayon", "reader"][(target % 5) as usize]).arg(&path);
+    }
+    let out = cmd.current_dir(&dir).stdin(std::process::Stdio::null()).output().map_err(|e| OpErr::Harness(format!("strace: {e}")))?;
+    let logtxt = std::fs::read_to_string(&log).unwrap_or_default();
+    let injected = logtxt.contains("(INJECTED)");
+    let so = String::from_utf8_lossy(&out.stdout).to_string();
+    let se = String::from_utf8_lossy(&out.stderr).to_string();
+    if out.status.code() == Some(101) || se.contains("panicked at") {
+        return viol("panic", format!("child panicked under {sc}:{en}:when={when}: {}", se.lines().next().unwrap_or("")));
+    }
+    let want_hex = crate::model::hex(&crate::ops::oneshot(&MMode::Hash, &content));
+    let got_hex = so.split_whitespace().next().unwrap_or("").to_string();
+    let ok_exit = out.status.code() == Some(0);
+    sh.fault(match (sc, en, injected) {
+        (_, _, false) => "syscall_fault_not_reached",
+        ("mmap", _, _) => "syscall_mmap_fails",
+        ("lseek", _, _) => "syscall_lseek_fails",
+        ("read", "EINTR", _) => "syscall_read_eintr",
+        _ => "syscall_read_hard_error",
+    });
+    // a digest may only ever be printed if it is the right one
+    if ok_exit && got_hex != want_hex {
+        return viol("result-mismatch", format!("{sc} -> {en} (call {when}, injected={injected}): exit 0 with digest {got_hex}, file hashes to {want_hex}"));
+    }
+    if !ok_exit && got_hex.len() == 64 && !is_b3sum {
+        return viol("result-mismatch", format!("{sc} -> {en}: failed but printed a digest"));
+    }
+    let retriable = sc == "mmap" || sc == "lseek" || en == "EINTR";
+    if retriable || !injected {
+        // mapping failures fall back to reads, Interrupted is retried, an untouched run just works
+        if !ok_exit {
+            return viol("result-mismatch", format!("{sc} -> {en} (call {when}, injected={injected}) must not fail the hash: exit {:?}, stdout {:?}, stderr {:?}", out.status.code(), so.trim(), se.trim()));
+        }
+    } else if ok_exit {
+        // a hard read error was injected and yet a (correct) digest came out: the error was swallowed and
+        // the data re-read, or the read was not needed; only the former would be wrong, and it cannot
+        // produce the right digest without re-reading, so this is accepted
+        sh.probe("hard_read_error_but_correct_digest");
+    } else if is_b3sum && so.contains(&want_hex) {
+        return viol("exit-status", "b3sum printed the digest and failed".into());
+    }
+    sh.shape(Fnv::of(&[7, target % 5, syscall % 3, errno % 5, when.min(6) as u8, injected as u8, ok_exit as u8, (content.len() >= 16384) as u8]));
+    Ok(Fnv::of(so.as_bytes()) ^ out.status.code().unwrap_or(-1) as u64)
 }
